@@ -14,7 +14,7 @@ import xml.etree.ElementTree as ET
 SRC = "/tmp/seed/out"
 ROOT = os.path.dirname(os.path.dirname(os.path.abspath(__file__)))
 WT = f"/tmp/seedwt_eval_{os.getpid()}"
-EXTRA = {"C03f": ["C04"], "C07f": ["C04"], "C18e": ["C19"], "C05g": ["C01"], "C09g": ["C15"], "C02f": ["C04"], "C06h": ["C01"], "C05e": ["C03"], "C01e": ["C04"], "C19f": [], "C04b": ["C01"], "C09b": ["C04"], "C03b": ["C04"], "C10b": ["C03", "C04"], "C15b": ["C09"], "C09a": ["C15"], "C04a": ["C07"], "C07a": ["C04"]}
+EXTRA = {"C11b": ["C10"], "C03f": ["C04"], "C07f": ["C04"], "C18e": ["C19"], "C05g": ["C01"], "C09g": ["C15"], "C02f": ["C04"], "C06h": ["C01"], "C05e": ["C03"], "C01e": ["C04"], "C19f": [], "C04b": ["C01"], "C09b": ["C04"], "C03b": ["C04"], "C10b": ["C03", "C04"], "C15b": ["C09"], "C09a": ["C15"], "C04a": ["C07"], "C07a": ["C04"]}
 
 
 def sh(cmd, cwd=None, timeout=3000):
